@@ -10,6 +10,7 @@
      TCol d  : tag 2, body = #cells ; for each cell: #fields ; (sign ; |x|) per field
      TVal v  : tag 3, body = #fields ; (sign ; |x|) per field
      TCrc c  : tag 4, body = c
+     TBulk d : tag 5, body as TCol
    ("bytes" are N, unbounded, as everywhere in the model). *)
 From Coq Require Import List ZArith NArith Arith Bool Lia.
 Import ListNotations.
@@ -19,7 +20,7 @@ Definition enc_z (z : Z) : list N := [if Z.ltb z 0 then 1%N else 0%N; Z.abs_N z]
 Definition enc_cell (v : list Z) : list N := N.of_nat (length v) :: flat_map enc_z v.
 
 Definition tag (t : token) : N :=
-  match t with TLen _ => 0 | TFlag _ => 1 | TCol _ => 2 | TVal _ => 3 | TCrc _ => 4 end%N.
+  match t with TLen _ => 0 | TFlag _ => 1 | TCol _ => 2 | TVal _ => 3 | TCrc _ => 4 | TBulk _ => 5 end%N.
 Definition body (t : token) : list N :=
   match t with
   | TLen n => enc_z n
@@ -27,6 +28,7 @@ Definition body (t : token) : list N :=
   | TCol d => N.of_nat (length d) :: flat_map enc_cell d
   | TVal v => enc_cell v
   | TCrc c => [c]
+  | TBulk d => N.of_nat (length d) :: flat_map enc_cell d
   end.
 
 Definition toy_enc (st : unit) (t : token) : list N * unit :=
@@ -76,6 +78,10 @@ Definition parse_body (tg : N) (b : list N) : option token :=
            end
   | 3%N => match parse_cell b with Some (v, []) => Some (TVal v) | _ => None end
   | 4%N => match b with [c] => Some (TCrc c) | _ => None end
+  | 5%N => match b with
+           | n :: r => match parse_cells (N.to_nat n) r with Some (d, []) => Some (TBulk d) | _ => None end
+           | [] => None
+           end
   | _ => None
   end.
 
@@ -116,11 +122,12 @@ Qed.
 
 Lemma parse_body_enc t : parse_body (tag t) (body t) = Some t.
 Proof.
-  destruct t as [n|b|d|v|c]; cbn [tag body parse_body].
+  destruct t as [n|b|d|v|d|c]; cbn [tag body parse_body].
   - unfold enc_z. cbn [parse_zs]. rewrite dec_enc_z. reflexivity.
   - destruct b; reflexivity.
   - rewrite Nat2N.id. rewrite <- (app_nil_r (flat_map enc_cell d)), parse_cells_enc. reflexivity.
   - rewrite <- (app_nil_r (enc_cell v)), parse_cell_enc. reflexivity.
+  - rewrite Nat2N.id. rewrite <- (app_nil_r (flat_map enc_cell d)), parse_cells_enc. reflexivity.
   - reflexivity.
 Qed.
 
